@@ -188,6 +188,20 @@ theorem unop_numeric_no_host {F} (ops : FOps F) (op : UnOp) (a : Cell F) (ha : a
     rcases hty t x rfl with rfl | rfl <;> cases op <;> simp only [unop] <;>
       first | exact hk _ _ (by decide) | (split <;> first | exact hk _ _ (by decide) | simp) | simp
 
+/-- ... and on a string cell every unary instruction answers with the machine's own TYPE_MISMATCH trap (as repaired: the
+    comparison tests and SGN raised NameError while building that trap): no unary instruction raises on ANY cell -/
+theorem unop_no_host {F} (ops : FOps F) (op : UnOp) (a : Cell F) (hty : ∀ t x, a = .flt t x → t = .s ∨ t = .d)
+    (hti : ∀ t x, a = .int t x → t = .i ∨ t = .l) (cls : String) : unop ops op a ≠ .host cls := by
+  cases a with
+  | str s => cases op <;> simp [unop]
+  | int t x => exact unop_numeric_no_host ops op _ (by simp [Cell.ty]; rcases hti t x rfl with rfl | rfl <;> decide) hty hti cls
+  | flt t x => exact unop_numeric_no_host ops op _ (by simp [Cell.ty]; rcases hty t x rfl with rfl | rfl <;> decide) hty hti cls
+
+/-- comparing two cells of different types is a TYPE_MISMATCH trap (as repaired: the trap was built with a positional
+    argument too many, a TypeError) -/
+theorem cmp_mismatch_traps {F} (ops : FOps F) (a b : Cell F) (h : a.ty ≠ b.ty) : binop ops .cmp a b = .trap "TYPE_MISMATCH" := by
+  simp [binop, h]
+
 /-- no conversion instruction can raise a host exception, whatever the cell -/
 theorem conv_no_host {F} (ops : FOps F) (src dst : Ty) (hd : dst ≠ .str) (a : Cell F) (cls : String) :
     conv ops src dst a ≠ .host cls := by
